@@ -79,12 +79,12 @@ Begin(c) == /\ Idle /\ calls < MaxCalls /\ calls' = calls + 1
             /\ ctx' = c @@ [pre |-> [cur |-> cur, vact |-> vact, tact |-> tact, loglen |-> Len(log)], first |-> Len(log) + 1, left |-> 0]
             /\ UNCHANGED <<sc, ep, log, faults, ret>>
 
-CallStep(n, tb, ev, dv, dt) ==
-    /\ Begin([call |-> "step", n |-> n, tb |-> tb, ev |-> ev, dv |-> dv, dt |-> dt, solve |-> FALSE])
-    /\ vact' = (vact \cup ev) \ dv /\ tact' = tact \ dt                \* temporary flags applied first
+CallStep(n, tb, ev, dv, dt, et) ==
+    /\ Begin([call |-> "step", n |-> n, tb |-> tb, ev |-> ev, dv |-> dv, dt |-> dt, et |-> et, solve |-> FALSE])
+    /\ vact' = (vact \cup ev) \ dv /\ tact' = (tact \cup et) \ dt     \* temporary flags applied first: the enabling arguments, then the disabling ones
     /\ pc' = "tag" /\ UNCHANGED cur
 CallSolve ==
-    /\ Begin([call |-> "step", n |-> E.nmax, tb |-> TRUE, ev |-> {}, dv |-> {}, dt |-> {}, solve |-> TRUE])
+    /\ Begin([call |-> "step", n |-> E.nmax, tb |-> TRUE, ev |-> {}, dv |-> {}, dt |-> {}, et |-> {}, solve |-> TRUE])
     /\ UNCHANGED <<cur, vact, tact>> /\ pc' = "tag"
 CallReload(i) ==
     /\ i \in 1..Len(log)
@@ -182,7 +182,9 @@ TagEval    == EvalThen("tag_eval", "return")
 
 (* the normal end of step(): temporary flags undone; solve() then gives its verdict *)
 Undo == /\ pc = "undo"
-        /\ LET va == (vact \cup ctx.dv) \ ctx.ev   ta == tact \cup ctx.dt IN
+        \* optimize.py undoes the enabling arguments first and the disabling ones last: a knob / target named by both ends ACTIVE
+        \* (found by the long histories: a first transcription, (vact \cup dv) \ ev, rejected step(enable_vary=[0], disable_vary_name='k0'))
+        /\ LET va == (vact \ ctx.ev) \cup ctx.dv   ta == (tact \ ctx.et) \cup ctx.dt IN
            /\ vact' = va /\ tact' = ta
            /\ IF ctx.solve /\ ~Tol(cur, ta)
               THEN /\ pc' = "verdict" /\ UNCHANGED <<cur, log, ctx, faults, ret>>
@@ -213,7 +215,7 @@ Micro == \/ Tag \/ IterStop \/ IterStay
          \/ BestEval \/ Undo \/ Verdict \/ RestoreEval \/ ReloadEval \/ TagEval \/ ClearEval
 
 Sub(S) == {{}} \cup {{x} : x \in S}
-Calls == \/ \E n \in {1, 2} : \E tb \in BOOLEAN : \E dv \in Sub({1}) : \E dt \in Sub({2}) : \E ev \in Sub({2}) : (ev = {} \/ dv = {}) /\ CallStep(n, tb, ev, dv, dt)
+Calls == \/ \E n \in {1, 2} : \E tb \in BOOLEAN : \E dv \in Sub({1}) : \E dt \in Sub({2}) : \E ev \in Sub({2}) : (ev = {} \/ dv = {}) /\ CallStep(n, tb, ev, dv, dt, {})
          \/ CallSolve \/ CallTag \/ CallClear \/ CallRetarget
          \/ \E i \in 1..3 : CallReload(i)
          \/ (Len(log) = 0 /\ CallReloadMissing("IndexError"))
